@@ -27,7 +27,7 @@ ASSUMPTIONS = ["a renderable error's own code and message are its class/instance
                "'bare 5.00' is taken to mean code 5.00 with an empty payload"]
 EXPECTED_PROBES = ["renderable_error", "generic_exception", "wrong_return_type", "failing_renderer", "slow_failure",
                    "default_code", "not_found", "method_not_allowed", "not_a_server", "concurrent_neighbours", "gc_while_handler_waits", "non_renderable_with_to_message", "request_over_tcp",
-                   "observation_declined", "crowd_of_pending_requests", "crowd_above_64", "handler_on_instance"]
+                   "observation_declined", "crowd_of_pending_requests", "crowd_above_64", "handler_on_instance", "response_declined_by_client", "other_class_declined_response_due"]
 
 SECRET = "SECRET-9f3a-MARKER"
 METHODS = {"GET": 1, "POST": 2, "PUT": 3, "DELETE": 4, "FETCH": 5, "PATCH": 6, "IPATCH": 7}
@@ -70,6 +70,9 @@ def gen_req(r, i):
         q["code"] = r.choice(RET_CODES)
     if kind.startswith("raise_renderable"):
         q["cls"] = r.choice(RENDERABLE)
+    if kind in ("ret_code", "ret_nocode") and r.chance(0.4):
+        # the client declines some response classes (RFC 7967): a response of another class is as due as ever
+        q["nr"] = r.choice([0, 2, 8, 16, 10, 18, 24, 26])
     if kind == "wait_weak":
         q["wake"] = r.choice([0.01, 0.2, 0.5, 2.0, 5.0])
     if kind == "raise_generic":
@@ -505,6 +508,8 @@ def execute(sim, scn):
         m = {"type": rc.CON if q["con"] else rc.NON, "code": METHODS[q["method"]], "mid": 0x100 + q["id"],
              "token": token, "options": ([(rc.OBSERVE, b"")] if q["kind"].startswith("obs_decline") else []) +
              [(rc.URI_PATH, path), (rc.URI_QUERY, b"r=%d" % q["id"])], "payload": b""}
+        if q.get("nr") is not None:
+            m["options"].append((rc.NO_RESPONSE, rc.uint_bytes(q["nr"])))
         if q.get("tcp"):
             def send_tcp(q=q, m=m):
                 p = tcp_peers[q["client"]]
@@ -600,6 +605,15 @@ def execute(sim, scn):
                 distinct.append(e)
         if q.get("tcp"):
             distinct = list(resp)  # a stream neither loses nor repeats: every frame counts
+        if q.get("nr") is not None and q["kind"] in ("ret_code", "ret_nocode") and not scn.get("nosite"):
+            cls_ = (q["code"] >> 5) if q["kind"] == "ret_code" else 2
+            if q["nr"] & (1 << (cls_ - 1)):
+                sim.probe("response_declined_by_client")
+                if distinct:
+                    sim.violation("C09/declined-response-sent", dict(ident, no_response=q["nr"], n=len(distinct)))
+                continue
+            sim.probe("other_class_declined_response_due")
+            ident["no_response"] = q["nr"]
         if not distinct and not q.get("tcp") and gave_up_towards(cl_addr):
             # all five copies of an earlier confirmable response to this client were lost: the message layer reports a
             # transport failure for the endpoint and drops what was held back for it (NSTART).  Narrow relaxation.
